@@ -9,7 +9,7 @@ use crate::{
     },
     reader::WriteXml,
 };
-use inflector::cases::{pascalcase::to_pascal_case, snakecase::to_snake_case};
+use inflector::cases::snakecase::to_snake_case;
 use reqwest::Url;
 use std::{io, rc::Rc};
 
@@ -23,7 +23,7 @@ where
             writeln!(writer, "\n/* {} */\n", operation_name.replace("*/", "* /"))?;
 
             // input
-            let operation_name = to_pascal_case(operation_name);
+            let operation_name = xml_name_to_rust_name(operation_name);
             let envelope_name = format!("{operation_name}InputEnvelope");
             let soap_operation = &operation.input;
             write_soap_operation(writer, &envelope_name, soap_operation, &self.target_namespaces)?;
